@@ -82,6 +82,15 @@ static inline int64_t pgmv_f2i_int64_t(double x) { return (int64_t)x; }
 /* ---- std::vector<T>: {data,size,cap}.  Element access is array access on `data` (bounds are CBMC
  * obligations against the is_fresh size cap*sizeof(T)).  Growth keeps the contents and never fails:
  * reallocation is abstracted by a symbolic capacity (assumption "allocation never fails").  [A] */
+/* Local (default-constructed) vectors: with -DPGMV_LOCAL_VEC_CAP the buffer of a new vector has the ghost capacity g_lcap (arbitrary, symbolic), so a later
+   resize / emplace_back never reallocates: the pointer stays put and the contents are kept [A: equivalent to std::vector as long as no iterator is held across
+   a growing call]; `__CPROVER_assume(n <= cap)` then only selects a large enough g_lcap. */
+#ifdef PGMV_LOCAL_VEC_CAP
+extern size_t g_lcap;
+#define PGMV_NEW_CAP(n) ((n) > g_lcap ? (n) : g_lcap)
+#else
+#define PGMV_NEW_CAP(n) ((n) ? (n) : 1)
+#endif
 #define PGMV_DEF_VEC(T) \
   typedef struct { T *data; size_t size; size_t cap; } vec_##T; \
   static inline void vec_##T##_clear(vec_##T *v) { v->size = 0; } \
@@ -90,9 +99,11 @@ static inline int64_t pgmv_f2i_int64_t(double x) { return (int64_t)x; }
   static inline void vec_##T##_resize(vec_##T *v, size_t n) { __CPROVER_assume(n <= v->cap); v->size = n; } \
   static inline void vec_##T##_reserve(vec_##T *v, size_t n) { (void)v; (void)n; } \
   /* resize of a LOCAL vector that may grow: a larger buffer is a new allocation whose contents are unspecified (over-approximates the preserved prefix) */ \
-  static inline void vec_##T##_resize_any(vec_##T *v, size_t n) { if (n > v->cap) { T *pgmv_nd = (T *)malloc(n * sizeof(T)); __CPROVER_assume(pgmv_nd != 0); v->data = pgmv_nd; v->cap = n; } v->size = n; } \
+  static inline void vec_##T##_resize_any(vec_##T *v, size_t n) { if (n > v->cap) { T *pgmv_nd = (T *)malloc((n + 1) * sizeof(T)); __CPROVER_assume(pgmv_nd != 0); v->data = pgmv_nd; v->cap = n + 1; } v->size = n; } \
+  /* reserve on an EMPTY local vector: a buffer of at least n elements */ \
+  static inline void vec_##T##_reserve_any(vec_##T *v, size_t n) { __CPROVER_assert(v->size == 0, "pgmv: reserve_any is modelled for empty vectors only"); if (n > v->cap) { T *pgmv_nd = (T *)malloc((n + 1) * sizeof(T)); __CPROVER_assume(pgmv_nd != 0); v->data = pgmv_nd; v->cap = n + 1; } } \
   static inline void vec_##T##_shrink_to_fit(vec_##T *v) { (void)v; } \
   static inline void vec_##T##_emplace_back_default(vec_##T *v) { T pgmv_zero = {0}; __CPROVER_assume(v->size < v->cap); v->data[v->size] = pgmv_zero; v->size = v->size + 1; } \
-  static inline vec_##T vec_##T##_new(size_t n) { vec_##T v; v.data = (T *)calloc((n ? n : 1), sizeof(T)); __CPROVER_assume(v.data != 0); v.size = n; v.cap = (n ? n : 1); return v; }
+  static inline vec_##T vec_##T##_new(size_t n) { vec_##T v; v.data = (T *)calloc(PGMV_NEW_CAP(n) + 1, sizeof(T));   /* one spare element beyond cap (harmless over-allocation) */ __CPROVER_assume(v.data != 0); v.size = n; v.cap = PGMV_NEW_CAP(n); return v; }
 
 #endif
